@@ -5,12 +5,14 @@ import (
 	"encoding/json"
 	"flag"
 	"fmt"
+	"github.com/hugelgupf/p9/zzverif/simfs"
 	"io"
 	"os"
 	"os/exec"
 	"path/filepath"
 	"runtime"
 	"sort"
+	"strconv"
 	"strings"
 	"sync"
 	"time"
@@ -45,6 +47,15 @@ func (rc *RunCtx) Count(name string, n int) {
 func (rc *RunCtx) Find(prop, oracle, key, format string, args ...interface{}) {
 	rc.Findings = append(rc.Findings, Finding{Prop: prop, Oracle: oracle, Key: oracle + ":" + key, Detail: fmt.Sprintf(format, args...)})
 }
+
+// Monitors and backends created during the current run.  When a run is cut
+// short (deadlock, step budget) the scenario never reaches the point where
+// it gathers their findings; finishRun does it then.
+var (
+	liveMons  []*ConnMon
+	liveFakes []*FakeSrv
+	liveFS    []*simfs.FS
+)
 
 // Engine decides one property.
 type Engine struct {
@@ -111,7 +122,9 @@ func execRun(e *Engine, tier string, seed uint64, index int, plan, sched []uint3
 		rc.Plan = simrt.NewTape(tapeSeed(seed, index, 1))
 		rc.Sched = simrt.NewTape(tapeSeed(seed, index, 2))
 	}
+	liveMons, liveFakes, liveFS = nil, nil, nil
 	e.Run(rc)
+	liveMons, liveFakes, liveFS = nil, nil, nil
 	// Findings of properties this engine does not own are dropped here and
 	// counted; each property is reported by its own check.
 	var keep []Finding
@@ -187,36 +200,39 @@ func isKnown(known []knownEntry, f Finding) *knownEntry {
 // ------------------------------------------------------------------ worker
 
 type workerMsg struct {
-	Kind     string         `json:"k"` // "S" start, "E" end, "F" finding, "A" aggregate
-	Index    int            `json:"i,omitempty"`
-	Finding  *Finding       `json:"f,omitempty"`
-	Plan     []uint32       `json:"p,omitempty"`
-	Sched    []uint32       `json:"s,omitempty"`
-	Outcome  string         `json:"o,omitempty"`
-	Label    string         `json:"l,omitempty"`
-	Agg      *aggregate     `json:"a,omitempty"`
-	Known    []Finding      `json:"kn,omitempty"`
+	Kind    string     `json:"k"` // "S" start, "E" end, "F" finding, "A" aggregate
+	Index   int        `json:"i,omitempty"`
+	Finding *Finding   `json:"f,omitempty"`
+	Plan    []uint32   `json:"p,omitempty"`
+	Sched   []uint32   `json:"s,omitempty"`
+	Outcome string     `json:"o,omitempty"`
+	Label   string     `json:"l,omitempty"`
+	Agg     *aggregate `json:"a,omitempty"`
+	Known   []Finding  `json:"kn,omitempty"`
+	// Next (with "A"): the worker stopped early to give its memory back; the
+	// driver starts a fresh process at this index.
+	Next int `json:"n,omitempty"`
 }
 
 type aggregate struct {
-	Runs        int            `json:"runs"`
-	Steps       int64          `json:"steps"`
-	Choices     int64          `json:"choices"`
-	Tasks       int64          `json:"tasks"`
-	Trivial     int            `json:"trivial"`
-	Outcomes    map[string]int `json:"outcomes"`
-	Counters    map[string]int `json:"counters"`
-	Probes      map[string]int `json:"probes"`
-	Faults      map[string]int `json:"faults"`
-	Labels      map[string]int `json:"labels"`
+	Runs         int                 `json:"runs"`
+	Steps        int64               `json:"steps"`
+	Choices      int64               `json:"choices"`
+	Tasks        int64               `json:"tasks"`
+	Trivial      int                 `json:"trivial"`
+	Outcomes     map[string]int      `json:"outcomes"`
+	Counters     map[string]int      `json:"counters"`
+	Probes       map[string]int      `json:"probes"`
+	Faults       map[string]int      `json:"faults"`
+	Labels       map[string]int      `json:"labels"`
 	Fingerprints map[uint64]struct{} `json:"-"`
-	NFinger     int            `json:"fingerprints"`
-	PairSites   map[uint64]struct{} `json:"-"`
-	NPairs      int            `json:"pair_sites"`
-	Samples     []interface{}  `json:"samples"`
-	FPList      []uint64       `json:"fpl,omitempty"`
-	PairList    []uint64       `json:"prl,omitempty"`
-	KnownHits   map[string]int `json:"known_hits"`
+	NFinger      int                 `json:"fingerprints"`
+	PairSites    map[uint64]struct{} `json:"-"`
+	NPairs       int                 `json:"pair_sites"`
+	Samples      []interface{}       `json:"samples"`
+	FPList       []uint64            `json:"fpl,omitempty"`
+	PairList     []uint64            `json:"prl,omitempty"`
+	KnownHits    map[string]int      `json:"known_hits"`
 }
 
 func newAgg() *aggregate {
@@ -311,6 +327,7 @@ func workerMain(e *Engine, tier string, seed uint64, from, to, stride, offset in
 	known := loadKnown(knownPath)
 	agg := newAgg()
 	seenKeys := map[string]bool{}
+	next := 0
 	flush := func() {
 		agg.FPList = agg.FPList[:0]
 		for k := range agg.Fingerprints {
@@ -320,12 +337,31 @@ func workerMain(e *Engine, tier string, seed uint64, from, to, stride, offset in
 		for k := range agg.PairSites {
 			agg.PairList = append(agg.PairList, k)
 		}
-		enc.Encode(workerMsg{Kind: "A", Agg: agg})
+		enc.Encode(workerMsg{Kind: "A", Agg: agg, Next: next})
 		out.Flush()
 	}
+	// Tasks still parked when a run ends (a server goroutine waiting for the
+	// next frame, everything left over after a deadlock) stay parked for good,
+	// together with what their stacks reach.  Rather than tearing them down -
+	// which would run p9's deferred code outside any schedule - the worker
+	// hands over to a fresh process once it has grown.
+	memLimit := uint64(1536 << 20)
+	if v, err := strconv.ParseUint(os.Getenv("VERIF_WORKER_MEM_MB"), 10, 64); err == nil && v > 0 {
+		memLimit = v << 20
+	}
+	nruns := 0
 	for i := from + offset; i < to; i += stride {
 		if time.Now().After(deadline) {
 			break
+		}
+		nruns++
+		if nruns%32 == 0 {
+			var ms runtime.MemStats
+			runtime.ReadMemStats(&ms)
+			if ms.Sys > memLimit {
+				next = i
+				break
+			}
 		}
 		enc.Encode(workerMsg{Kind: "S", Index: i})
 		out.Flush()
@@ -707,61 +743,77 @@ func parentMain(e *Engine, tier string, seed uint64, workers, runsOverride, secs
 		wg.Add(1)
 		go func(w int) {
 			defer wg.Done()
-			cmd := exec.Command(self, "-worker", "-prop", e.ID, "-tier", tier, "-seed", fmt.Sprint(seed),
-				"-from", "0", "-to", fmt.Sprint(total), "-stride", fmt.Sprint(workers), "-offset", fmt.Sprint(w), "-secs", fmt.Sprint(secs))
-			cmd.Env = append(os.Environ(), "GORACE=halt_on_error=0 exitcode=0")
-			stdout, _ := cmd.StdoutPipe()
-			var errb strings.Builder
-			lim := 1 << 16
-			if simrt.RaceBuild {
-				lim = 64 << 20
-			}
-			cmd.Stderr = &limitedWriter{w: &errb, n: lim}
-			if err := cmd.Start(); err != nil {
+			for from := w; from < total; {
+				resume := 0
+				left := secs - int(time.Since(start).Seconds())
+				if left < 1 {
+					return
+				}
+				cmd := exec.Command(self, "-worker", "-prop", e.ID, "-tier", tier, "-seed", fmt.Sprint(seed),
+					"-from", fmt.Sprint(from), "-to", fmt.Sprint(total), "-stride", fmt.Sprint(workers), "-offset", "0", "-secs", fmt.Sprint(left))
+				cmd.Env = append(os.Environ(), "GORACE=halt_on_error=0 exitcode=0")
+				stdout, _ := cmd.StdoutPipe()
+				var errb strings.Builder
+				lim := 1 << 16
+				if simrt.RaceBuild {
+					lim = 64 << 20
+				}
+				cmd.Stderr = &limitedWriter{w: &errb, n: lim}
+				if err := cmd.Start(); err != nil {
+					mu.Lock()
+					finds = append(finds, found{crashed: true, stderr: "start: " + err.Error(), msg: workerMsg{Index: -1}})
+					mu.Unlock()
+					return
+				}
+				// watchdog
+				timer := time.AfterFunc(time.Duration(left+120)*time.Second, func() { cmd.Process.Kill() })
+				dec := json.NewDecoder(bufio.NewReaderSize(stdout, 1<<20))
+				cur := -1
+				gotAgg := false
+				for {
+					var m workerMsg
+					if err := dec.Decode(&m); err != nil {
+						break
+					}
+					switch m.Kind {
+					case "S":
+						cur = m.Index
+					case "E":
+						cur = -1
+					case "F":
+						mu.Lock()
+						finds = append(finds, found{msg: m})
+						mu.Unlock()
+						cur = -1
+					case "A":
+						gotAgg = true
+						resume = m.Next
+						mu.Lock()
+						agg.merge(m.Agg)
+						mu.Unlock()
+					}
+				}
+				err := cmd.Wait()
+				timer.Stop()
+				if simrt.RaceBuild {
+					for _, rr := range parseRaceReports(errb.String()) {
+						mu.Lock()
+						races = append(races, rr)
+						mu.Unlock()
+					}
+				}
+				if err != nil || !gotAgg {
+					mu.Lock()
+					finds = append(finds, found{crashed: true, stderr: errb.String(), msg: workerMsg{Index: cur}})
+					mu.Unlock()
+					return
+				}
+				if resume <= from {
+					return
+				}
+				from = resume
 				mu.Lock()
-				finds = append(finds, found{crashed: true, stderr: "start: " + err.Error(), msg: workerMsg{Index: -1}})
-				mu.Unlock()
-				return
-			}
-			// watchdog
-			timer := time.AfterFunc(time.Duration(secs+120)*time.Second, func() { cmd.Process.Kill() })
-			defer timer.Stop()
-			dec := json.NewDecoder(bufio.NewReaderSize(stdout, 1<<20))
-			cur := -1
-			gotAgg := false
-			for {
-				var m workerMsg
-				if err := dec.Decode(&m); err != nil {
-					break
-				}
-				switch m.Kind {
-				case "S":
-					cur = m.Index
-				case "E":
-					cur = -1
-				case "F":
-					mu.Lock()
-					finds = append(finds, found{msg: m})
-					mu.Unlock()
-					cur = -1
-				case "A":
-					gotAgg = true
-					mu.Lock()
-					agg.merge(m.Agg)
-					mu.Unlock()
-				}
-			}
-			err := cmd.Wait()
-			if simrt.RaceBuild {
-				for _, rr := range parseRaceReports(errb.String()) {
-					mu.Lock()
-					races = append(races, rr)
-					mu.Unlock()
-				}
-			}
-			if err != nil || !gotAgg {
-				mu.Lock()
-				finds = append(finds, found{crashed: true, stderr: errb.String(), msg: workerMsg{Index: cur}})
+				agg.Counters["worker_processes_recycled"]++
 				mu.Unlock()
 			}
 		}(w)
@@ -979,32 +1031,32 @@ func parentMain(e *Engine, tier string, seed uint64, workers, runsOverride, secs
 	// evidence
 	distinct := len(agg.Fingerprints)
 	cov := map[string]interface{}{
-		"evaluations":         agg.Runs,
-		"distinct_nontrivial": distinct,
-		"rule":                e.Rule,
-		"samples":             agg.Samples,
-		"exhaustive":          false,
-		"runs":                agg.Runs,
-		"directed_scenarios":  ndir,
-		"random_runs_planned": nrand,
-		"runs_per_hour":       int(float64(agg.Runs) / wall * 3600),
-		"simulated_time_steps": agg.Steps,
-		"simulated_time_note": "p9 has no clock or timers; simulated time is the scheduler step counter",
-		"scheduling_decisions": agg.Choices,
-		"tasks_spawned":       agg.Tasks,
-		"distinct_schedule_fingerprints": distinct,
-		"distinct_context_switch_site_pairs": len(agg.PairSites),
-		"outcomes":            agg.Outcomes,
-		"faults_fired":        agg.Faults,
-		"probes":              agg.Probes,
-		"counters":            agg.Counters,
-		"scenario_labels":     topLabels(agg.Labels, 40),
-		"trivial_runs":        agg.Trivial,
-		"components_real":     e.Real,
-		"components_stub":     e.Stub,
-		"workers":             workers,
-		"known_findings_seen": agg.KnownHits,
-		"race_detector":       simrt.RaceBuild,
+		"evaluations":                          agg.Runs,
+		"distinct_nontrivial":                  distinct,
+		"rule":                                 e.Rule,
+		"samples":                              agg.Samples,
+		"exhaustive":                           false,
+		"runs":                                 agg.Runs,
+		"directed_scenarios":                   ndir,
+		"random_runs_planned":                  nrand,
+		"runs_per_hour":                        int(float64(agg.Runs) / wall * 3600),
+		"simulated_time_steps":                 agg.Steps,
+		"simulated_time_note":                  "p9 has no clock or timers; simulated time is the scheduler step counter",
+		"scheduling_decisions":                 agg.Choices,
+		"tasks_spawned":                        agg.Tasks,
+		"distinct_schedule_fingerprints":       distinct,
+		"distinct_context_switch_site_pairs":   len(agg.PairSites),
+		"outcomes":                             agg.Outcomes,
+		"faults_fired":                         agg.Faults,
+		"probes":                               agg.Probes,
+		"counters":                             agg.Counters,
+		"scenario_labels":                      topLabels(agg.Labels, 40),
+		"trivial_runs":                         agg.Trivial,
+		"components_real":                      e.Real,
+		"components_stub":                      e.Stub,
+		"workers":                              workers,
+		"known_findings_seen":                  agg.KnownHits,
+		"race_detector":                        simrt.RaceBuild,
 		"race_reports_in_harness_code_ignored": harnessReports,
 	}
 	for k, v := range extraNote {
